@@ -17,9 +17,18 @@ def load_example():
     return openpyxl.load_workbook(filename=EXAMPLE, data_only=True)
 
 
+_REQ = None
+
+
 def requireds():
-    import load_pump_excel as L
-    return L.excel_requireds
+    """the workbook format as the loader module defines it when it is first imported - a private deep copy, so that the fault sweep keeps covering the whole
+    documented format even if something edits the loader's own table while the process runs"""
+    global _REQ
+    if _REQ is None:
+        import copy
+        import load_pump_excel as L
+        _REQ = copy.deepcopy(L.excel_requireds)
+    return _REQ
 
 
 def sheet_type(title):
@@ -243,11 +252,20 @@ def outcome(wb):
             return 'other:' + type(e).__name__, None
 
 
-def stored_workbook(rng, tmpdir):
-    """(pipeline, path, workbook) of a generated pipeline written by store_to_excel"""
+def stored_workbook(rng, tmpdir, modes=None):
+    """(pipeline, path, workbook) of a generated pipeline written by store_to_excel; `modes` = limit modes of the pumps to put in the line (e.g.
+    ('curve', 'curve') or ('curve', 'torque', 'curve')), default: 0-3 pumps of random modes"""
     import openpyxl
     import store_pump_excel as S
-    pl = G.random_pipeline(rng, n_pumps=rng.randint(0, 3))
+    if modes is None:
+        pl = G.random_pipeline(rng, n_pumps=rng.randint(0, 3))
+    else:
+        from DHLLDV.PipeObj import Pipeline
+        pl = G.random_pipeline(rng, n_pumps=0)
+        secs = list(pl.pipesections)
+        for m_ in modes:
+            secs.insert(len(secs) - 1, G.random_pump(rng, mode=m_))
+        pl = Pipeline(name='generated', pipe_list=secs, slurry=pl.slurry)
     pl.name = rng.choice(['generated line', 'Test_1', 'A-B', 'x'])
     with warnings.catch_warnings():
         warnings.simplefilter('ignore')
